@@ -121,6 +121,17 @@ def family(tier="quick", seed=0, per_assignment=None, assignments=None):
             combos.append(tuple(p[0] for p in pools))  # all dense, natural order
             combos.append(tuple([f for f in p if all(m == Mode.compressed for m in f.modes) and f.ordering == tuple(range(f.order))][0] for p in pools))
             combos.append(tuple(p[-1] for p in pools))  # all compressed, reversed ordering
+            # every tensor of order >= 3 gets each cyclic (non-involutive) ordering at least once,
+            # dense and compressed, with the other tensors in natural dense order
+            for k, (n, pool) in enumerate(zip(names, pools)):
+                if orders[n] >= 3:
+                    for f in pool:
+                        invol = all(f.ordering[f.ordering[i]] == i for i in range(f.order))
+                        uniform = len(set(f.modes)) == 1
+                        if not invol and uniform:
+                            c = tuple(f if j == k else p[0] for j, p in enumerate(pools))
+                            if c not in combos:
+                                combos.append(c)
             seen = set(combos)
             while len(combos) < per_assignment:
                 c = tuple(rng.choice(p) for p in pools)
@@ -205,8 +216,12 @@ def input_samples(member: FamilyMember, tier, rng, max_dim=2, n_dims=None, n_str
         n_dims = 5 if tier == "quick" else 30
     if n_structs is None:
         n_structs = 4 if tier == "quick" else 12
+    if len(index_names) >= 3:
+        # distinct sizes tell permuted dimensions apart
+        extra = [tuple(range(1, len(index_names) + 1)), tuple(range(len(index_names), 0, -1)), tuple([2, 3, 1] + [2] * (len(index_names) - 3))]
+        dim_choices = extra + [d for d in dim_choices if d not in extra]
     if len(dim_choices) > n_dims:
-        keep = [dim_choices[-1], dim_choices[0]]
+        keep = dim_choices[:3] if len(index_names) >= 3 else [dim_choices[-1], dim_choices[0]]
         rest = [d for d in dim_choices if d not in keep]
         rng.shuffle(rest)
         dim_choices = keep + rest[: n_dims - 2]
